@@ -329,3 +329,24 @@ pub fn copy_short_reads_and_writes() {
     assert!(w.sink[0] == data[0] && w.sink[1] == data[1] && w.sink[2] == data[2]);
     assert!(w.flushed == 1);
 }
+
+// ------------------------------------------------------------------ BufWriter under a transient error (F15)
+/// write_all through a BufWriter whose inner writer answers Interrupted once, exactly when the BufWriter flushes right
+/// after it has buffered the payload: the payload must reach the sink exactly once (write_all retries on Interrupted —
+/// an error reported for bytes that were already taken makes it queue them twice)
+#[kani::proof]
+#[kani::unwind(10)]
+pub fn bufwriter_write_all_interrupted_flush() {
+    let data: [u8; 3] = kani::any();
+    let w = ChunkWriter::new([INT]);
+    let mut bw = BufWriter::with_capacity(4, w);
+    let buf = vec_cap(3, &data);
+    let BufResult(res, _buf) = run(bw.write_all(buf));
+    assert!(kind_of(&res).is_none(), "write_all over a BufWriter failed although the only error was transient");
+    std::mem::forget(res);
+    let r = run(bw.flush());
+    assert!(kind_of(&r).is_none()); std::mem::forget(r);
+    let w = bw.into_inner();
+    assert!(w.len == 3, "BufWriter + write_all: payload lost or duplicated after an interrupted flush");
+    let mut i = 0; while i < 3 { assert!(w.sink[i] == data[i]); i += 1; }
+}
